@@ -348,9 +348,9 @@ def run(ctx):
     listing, table_ops = check_inventory(ctx, drv, spec_targets, spec_excluded)
     ctx.log("plan: %d maximal schedules (<= %d steps)" % (nplan, steps))
     trace = os.path.join(ctx.scratch, "c19.ndjson")
-    # per (target, layout): all schedules for cheap targets (thorough: a seeded sample of 150 of the up to 383), fewer for
+    # per (target, layout): all schedules for cheap targets (thorough: a seeded sample of 80 of the up to 383), fewer for
     # targets whose steps cost milliseconds (RSA, ML-DSA, streaming) or tens of milliseconds (SLH-DSA)
-    limits = ["-max0", "150", "-max1", "60", "-max2", "10"] if ctx.thorough else ["-max1", "20", "-max2", "3"]
+    limits = ["-max0", "80", "-max1", "40", "-max2", "8"] if ctx.thorough else ["-max1", "20", "-max2", "3"]
     nproc = 12
 
     def drive(i):
@@ -394,7 +394,7 @@ MANIFEST = dict(
           "stepping Ownership with Faults = {}) judges every region's data / spare capacity / guards, result aliasing (address "
           "ranges) and the object's observable value (Equal vs pristine copy, accessors, primitives built before and after) "
           "after every step. quick: ~10.7k scenarios / ~97k events; thorough: 6-step schedules, ~10x."),
-    note=("Bounded: one object per scenario, schedules of <= 4 (quick) / <= 6 (thorough) steps; thorough samples 150 of the up "
+    note=("Bounded: one object per scenario, schedules of <= 4 (quick) / <= 6 (thorough) steps; thorough samples 80 of the up "
           "to 383 six-step schedules per (target, layout) by seed. Factory targets cover every primitive kind, every prefix type "
           "incl. LEGACY and the legacy adapters (custom key managers), but one or two parameter sets per key type. Stateful "
           "objects (noncebased Writer/Reader, Polyval) are observed against a lock-step twin fed with copies. Not covered: "
